@@ -322,6 +322,16 @@ class Theory:
                 raise CheckProofException("empty line %s cannot carry a statement" % seq.id)
             return None
 
+        # Citations are looked up by position (find_item), but whether a
+        # citation is admissible is decided from identifiers (can_depend_on).
+        # The two agree only if the id of an item is its position.
+        try:
+            item_at_id = prf.find_item(seq.id)
+        except ProofStateException:
+            item_at_id = None
+        if item_at_id is not seq:
+            raise CheckProofException("id %s does not match the position of the item" % seq.id)
+
         if seq.rule == "sorry":
             # Gap in the proof
             assert seq.th is not None, "sorry must have explicit statement."
